@@ -6,7 +6,7 @@ byte for byte under the same relative names — for every file size relative to 
 size ≥ 1, nested and empty directories — and a name filter excludes exactly the entries it rejects.
 
 Only property theorems and non-vacuity examples (namespace Rpyc.Props.C20).  Model:
-RpycModel/Files/Model.lean (`download…` transcribed separately and proved equal to `upload…`); lemmas (and the
+RpycModel/Files/Model.lean (`download…` is a second copy of the `upload…` recursion); lemmas (and the
 definitional `invalid_top_level`, `top_level_not_filtered`):
 RpycModel/Files/Lemmas.lean.  No bound on file sizes, tree depth or width.
 -/
@@ -28,17 +28,12 @@ theorem transfer_eq_prune (chunk : Nat) (hc : 1 ≤ chunk) (f : Filter) (ignoreI
     upload chunk f ignoreInvalid t = outcome ignoreInvalid (prune f t) :=
   upload_eq chunk hc f ignoreInvalid t
 
-/-- **`download` does what `upload` does.** `download` / `download_dir` / `download_file` are transcribed on
-their own (remote `isdir`/`isfile`/`listdir`/`read`, local `makedirs`/`write`); for every tree, filter, chunk
-size and `ignore_invalid` they produce what the upload functions produce … -/
+/-- **`download` does what `upload` does** — in the model: `download…` is the same recursion written down a second
+time (the model has no local / remote state), so this is an unfolding; that the real `download*` (remote
+`isdir`/`isfile`/`listdir`/`read`, local `makedirs`/`write`) behaves like the model is the correspondence's business. -/
 theorem download_is_upload (chunk : Nat) (f : Filter) (ignoreInvalid : Bool) (t : Tree) :
     download chunk f ignoreInvalid t = upload chunk f ignoreInvalid t :=
   download_eq_upload chunk f ignoreInvalid t
-
-/-- … hence the same pruned tree -/
-theorem download_eq_prune (chunk : Nat) (hc : 1 ≤ chunk) (f : Filter) (ignoreInvalid : Bool) (t : Tree) :
-    download chunk f ignoreInvalid t = outcome ignoreInvalid (prune f t) := by
-  rw [download_eq_upload]; exact upload_eq chunk hc f ignoreInvalid t
 
 /-- **Path by path**: whatever `upload` leaves at the destination consists of exactly those files — same
 relative path, same bytes — and directories (empty ones included) of the source all of whose path
@@ -76,12 +71,6 @@ theorem transfer_onto_absent (chunk : Nat) (hc : 1 ≤ chunk) (f : Filter) (ii :
     (hd : distinctNames t = true) : uploadOver chunk f ii t none = upload chunk f ii t := by
   rw [uploadOver_absent chunk hc f ii t hd, transfer_eq_prune chunk hc]
 
-/-- **A transfer overwrites**: whatever regular file is at the destination name — same size or not, newer or
-not — afterwards it holds the source's bytes exactly. -/
-theorem overwrite_file (chunk : Nat) (hc : 1 ≤ chunk) (f : Filter) (ii : Bool) (b old : Bytes) :
-    uploadOver chunk f ii (.file b) (some (.file old)) = .ok (some (.file b)) :=
-  uploadOver_sameShape chunk hc f ii (.file b) (.file old) (.file b) rfl rfl rfl
-
 /-- **The last transfer wins.** Transferring `t` onto a destination of the shape `t` transfers to (same names,
 files where files are, directories where directories are; any contents) leaves exactly what `t` transfers to:
 every file byte for byte from the last source. -/
@@ -117,13 +106,6 @@ theorem default_chunk_sizes_copy_exactly :
   have h : Gen.Files.defaultChunks.all (fun p => decide (1 ≤ p.2)) = true := by decide
   rw [List.all_eq_true] at h
   exact copyLoop_id p.2 (by simpa using h p hp) src
-
-/-- all six transfer functions are the ones modelled, and `upload`/`download` default to no filter and
-`ignore_invalid = False` -/
-theorem transfer_functions_are_modelled :
-    Gen.Files.defaultChunks.map Prod.fst
-        = ["upload", "upload_file", "upload_dir", "download", "download_file", "download_dir"]
-      ∧ Gen.Files.plainDefaults = ["upload", "download"] := by decide
 
 /-! ### non-vacuity -/
 
@@ -172,3 +154,30 @@ example : (List.map (fun n => copyFile 3 (List.range n)) [0, 1, 2, 3, 4, 6, 10])
 example : copyFile 0 [1, 2, 3] = [] := by decide
 
 end Rpyc.Props.C20
+
+/-! ### instances, duplicates and guards — NOT counted (outside `Rpyc.Props.C20`)
+
+`download_eq_prune` is `transfer_eq_prune` through `download_is_upload`; `overwrite_file` is an instance of
+`last_transfer_wins`; `transfer_functions_are_modelled` is a guard that cannot fail in Lean (the generator refuses
+any other list of functions before Lean sees it). -/
+namespace Rpyc.Files.C20Aux
+open Rpyc Rpyc.Files Rpyc.Props.C20
+
+theorem download_eq_prune (chunk : Nat) (hc : 1 ≤ chunk) (f : Filter) (ignoreInvalid : Bool) (t : Tree) :
+    download chunk f ignoreInvalid t = outcome ignoreInvalid (prune f t) := by
+  rw [download_eq_upload]; exact upload_eq chunk hc f ignoreInvalid t
+
+/-- **A transfer overwrites**: whatever regular file is at the destination name — same size or not, newer or
+not — afterwards it holds the source's bytes exactly. -/
+theorem overwrite_file (chunk : Nat) (hc : 1 ≤ chunk) (f : Filter) (ii : Bool) (b old : Bytes) :
+    uploadOver chunk f ii (.file b) (some (.file old)) = .ok (some (.file b)) :=
+  uploadOver_sameShape chunk hc f ii (.file b) (.file old) (.file b) rfl rfl rfl
+
+/-- all six transfer functions are the ones modelled, and `upload`/`download` default to no filter and
+`ignore_invalid = False` -/
+theorem transfer_functions_are_modelled :
+    Gen.Files.defaultChunks.map Prod.fst
+        = ["upload", "upload_file", "upload_dir", "download", "download_file", "download_dir"]
+      ∧ Gen.Files.plainDefaults = ["upload", "download"] := by decide
+
+end Rpyc.Files.C20Aux
